@@ -6,7 +6,7 @@ worktrees (tools/try_seed_wt.sh), N at a time, and records which checks detected
 import concurrent.futures, json, os, re, subprocess, sys
 HERE = os.path.dirname(os.path.dirname(os.path.abspath(__file__)))
 EXTRA = {'C01-2': ['C02'], 'C07-4': ['C19'], 'C16-3': ['C04'], 'C10-3': ['C19'], 'C08-4': ['C19'], 'C02-3': ['C11'],
-         'C08-5': ['C19'], 'C11-5': ['C06'], 'C03-5': ['C02'], 'C09-6': ['C20'], 'C08-6': ['C09'], 'C07-6': ['C19'], 'C20-6': ['C07'], 'C07-7': ['C11'], 'C11-7': ['C02'], 'C16-7': ['C05'], 'C08-7': ['C19'], 'C19-7': ['C08'], 'C02-8': ['C11', 'C07'], 'C07-8': ['C20'], 'C10-8': ['C09'], 'C09-9': ['C19'], 'C07-9': ['C20'], 'C05-8': ['C17'], 'C16-9': ['C05'], 'C07-10': ['C08', 'C09']}
+         'C08-5': ['C19'], 'C11-5': ['C06'], 'C03-5': ['C02'], 'C09-6': ['C20'], 'C08-6': ['C09'], 'C07-6': ['C19'], 'C20-6': ['C07'], 'C07-7': ['C11'], 'C11-7': ['C02'], 'C16-7': ['C05'], 'C08-7': ['C19'], 'C19-7': ['C08'], 'C02-8': ['C11', 'C07'], 'C07-8': ['C20'], 'C10-8': ['C09'], 'C09-9': ['C19'], 'C07-9': ['C20'], 'C05-8': ['C17'], 'C16-9': ['C05'], 'C07-10': ['C08', 'C09'], 'C08-10': ['C20']}
 
 
 def one(sid):
